@@ -585,9 +585,15 @@ fn copy_or_downsample(src_mode: &Mode, src_lg_k: u8, tgt_lg_k: u8) -> Array8 {
             }
             Mode::Array6(src) => {
                 copy_array46_via_coupons(&mut result, src.num_registers(), |slot| src.get(slot));
+                if src.is_out_of_order() {
+                    result.rebuild_estimator_from_registers();
+                }
             }
             Mode::Array4(src) => {
                 copy_array46_via_coupons(&mut result, src.num_registers(), |slot| src.get(slot));
+                if src.is_out_of_order() {
+                    result.rebuild_estimator_from_registers();
+                }
             }
             Mode::List { .. } | Mode::Set { .. } => {
                 unreachable!(
